@@ -127,23 +127,37 @@ fn check_table(t: &FileMetaTable, env: &EnvRef, step: &str) -> RunResult {
     Ok(())
 }
 
-const OP_TAGS: [(u16, u16); 9] = [(2, 0x10), (2, 2), (2, 3), (2, 0x12), (2, 0x13), (2, 0x16), (2, 0x17), (2, 0x18), (2, 0x100)];
+// every attribute of the group (version, group length and private information included) and one that is not in it
+const OP_TAGS: [(u16, u16); 13] = [(2, 0x10), (2, 2), (2, 3), (2, 0x12), (2, 0x13), (2, 0x16), (2, 0x17), (2, 0x18), (2, 0x100), (2, 0x102), (2, 1), (2, 0), (8, 0x18)];
 
 fn run_ops(w: &mut Tape, env: &EnvRef) -> RunResult {
     let mut t = gen_table(w, env, "1.2.840.10008.1.2.1")?;
     check_table(&t, env, "ops0")?;
     let n = 1 + w.below(6);
     for _ in 0..n {
-        let tag = OP_TAGS[w.below(9) as usize];
-        let s: String = if tag.1 >= 0x13 && tag.1 <= 0x18 { gen_ae(w) } else { gen_uid(w) };
-        let action = match w.below(7) {
+        let tag = OP_TAGS[w.weighted(&[3, 3, 3, 3, 3, 3, 3, 3, 3, 2, 1, 1, 1]) as usize];
+        let s: String = if w.chance(1, 8) {
+            String::new()
+        } else if tag.1 >= 0x13 && tag.1 <= 0x18 {
+            gen_ae(w)
+        } else {
+            gen_uid(w)
+        };
+        let action = match w.below(14) {
             0 => AttributeAction::SetStr(s.into()),
             1 => AttributeAction::ReplaceStr(s.into()),
             2 => AttributeAction::Remove,
             3 => AttributeAction::Empty,
             4 => AttributeAction::SetStrIfMissing(s.into()),
             5 => AttributeAction::Truncate(w.below(3) as usize),
-            _ => AttributeAction::Set(dicom_core::PrimitiveValue::from(s)),
+            6 => AttributeAction::Set(dicom_core::PrimitiveValue::from(s)),
+            7 => AttributeAction::SetIfMissing(dicom_core::PrimitiveValue::from(s)),
+            8 => AttributeAction::Replace(dicom_core::PrimitiveValue::from(s)),
+            9 => AttributeAction::PushStr(s.into()),
+            10 => AttributeAction::Set(dicom_core::PrimitiveValue::from(simcore::pattern_bytes(5, w.below(7) as usize))),
+            11 => AttributeAction::SetVr(dicom_core::VR::UI),
+            12 => AttributeAction::PushU16(w.below(300) as u16),
+            _ => AttributeAction::Set(dicom_core::PrimitiveValue::from(w.below(70000))),
         };
         let desc = format!("{:?} on ({:04X},{:04X})", action, tag.0, tag.1);
         let r = t.apply(AttributeOp::new(Tag(tag.0, tag.1), action));
